@@ -217,7 +217,7 @@ def program(draw, cfg=DEFAULT_CFG, cache_rel='cache.gz'):
     return prog
 
 
-VERSION_VALUES = [None, 1, 2, 'x', 1.0, True, [1], {'a': 1}]
+VERSION_VALUES = [None, 1, 2, 'x', 1.0, True, [1], {'a': 1}, 0, False, '', [], {}]     # falsy versions are versions too (seeded C01-k)
 version_value = st.sampled_from(VERSION_VALUES)
 
 
